@@ -193,9 +193,12 @@ def run(ctx, res):
     # R3.8 the handlers' internal sanity raises ('Bug detected') are unreachable: by the E1 types of the value switched on,
     # by an equality the callee already decided, propositionally, or by the number of add sites (the analysis of C04 R4.7)
     from .c04 import r47
-    r47(ctx, res, scope=list(hs), rule="R3.8", need=2)
+    r47(ctx, res, scope=list(hs), rule="R3.8", need=1)
+    # R3.10 positions and directions are not confused in the handlers and in the constructors of the operands (affine.py)
+    from ..affine import affine_scope, report_affine
+    k10 = report_affine(ctx, res, "R3.10", affine_scope(ctx, hs, ("Segment", "ConvexPolygon", "ConvexPolyhedron")), "the intersection")
+    ctx.require(res, "R3.10", k10, 10, "function contexts examined for position / direction mismatches")
     # R3.7 the linear solver picks its pivot row by the pivot column (coverage.py)
     from ..coverage import check_pivot_choice
-    kp = check_pivot_choice(ctx, res, "R3.7")
-    ctx.require(res, "R3.7", kp, 2, "row elements read by find_pivot_row")
+    check_pivot_choice(ctx, res, "R3.7")
     res.undecided_ob("the collected vertex set is the true vertex set; Euler reassembly; dedup of faces by hash; measures")
